@@ -12,6 +12,7 @@ ops (strings are hex of UTF-8, `-` = empty string; `-` in a register position = 
     settid <thread> <tid>      setname <thread> <nameHex>      setpname <proc> <nameHex>
     setstart <thread> <ns>     setpstart <proc> <ns>
     lib <dst> <nameHex>        libsyms <lib> (<addr>:<size|->:<nameHex>)*      map <proc> <lib> <start> <end> <rel>
+    unmap <proc> <start>       (remove_lib_mapping)            clearmaps <proc>   (clear_process_lib_mappings)
     string <dst> <hex>         cat <dst> <nameHex> <color>     subcat <dst> <cat> <nameHex>
     flabel <dst> <thread> <str> <sub> <flags>
     flabelsrc <dst> <thread> <str> <fileStr|-> <line|-> <col|-> <sub> <flags>
@@ -169,6 +170,8 @@ def checkLine (c : Chk) (w : List String) : Option Chk :=
     pure c
   | ["map", p, l, s, e, r] => do
     c.is p .proc; c.is l .lib; let _ ← num? s; let _ ← num? e; let _ ← num? r; pure c
+  | ["unmap", p, s] => do c.is p .proc; let _ ← num? s; pure c
+  | ["clearmaps", p] => do c.is p .proc; pure c
   | ["string", d, s] => do let _ ← unhexStr? s; c.define d .str
   | ["cat", d, n, col] => do let _ ← unhexStr? n; let _ ← num? col; c.define d .cat
   | ["subcat", d, ca, n] => do c.is ca .cat; let _ ← unhexStr? n; c.define d .sub
@@ -269,6 +272,8 @@ def toOp (r : Regs) (w : List String) : Option (Op × Option (String × Kind)) :
   | "libsyms" :: l :: rest => do pure (.libSyms (← r.lib l) (← syms? rest), none)
   | ["map", p, l, s, e, rl] => do
     pure (.addMapping (← r.proc p) (← r.lib l) (← num? s) (← num? e) (← num? rl), none)
+  | ["unmap", p, s] => do pure (.removeMapping (← r.proc p) (← num? s), none)
+  | ["clearmaps", p] => do pure (.clearMappings (← r.proc p), none)
   | ["string", d, s] => do pure (.string (← unhexStr? s), some (d, .str))
   | ["cat", d, n, col] => do pure (.category (← unhexStr? n) ((← num? col) % 14), some (d, .cat))
   | ["subcat", d, ca, n] => do pure (.subcategory (← r.cat ca) (← unhexStr? n), some (d, .sub))
@@ -649,6 +654,19 @@ def Spec.step (s : Spec) (n : Nat) (w : List String) (out : String) : Spec :=
       s.modProc p (fun pr => { pr with maps :=
         ⟨st, en, rl, l⟩ :: pr.maps.filter (fun m => !(decide (m.start < en) && decide (st < m.end_))) })
     | _, _, _, _, _ => skipped s
+  | ["unmap", p, st] =>
+    -- remove_lib_mapping: the mapping that *starts* at the address is gone, nothing else changes
+    match s.procR p, num? st with
+    | some p, some st =>
+      let (s, go) := s.outcome n out false false
+      if !go then s else s.modProc p (fun pr => { pr with maps := pr.maps.filter (fun m => m.start ≠ st) })
+    | _, _ => skipped s
+  | ["clearmaps", p] =>
+    match s.procR p with
+    | some p =>
+      let (s, go) := s.outcome n out false false
+      if !go then s else s.modProc p (fun pr => { pr with maps := [] })
+    | none => skipped s
   | ["string", d, x] =>
     match unhexStr? x with
     | some x => let (s, go) := s.outcome n out false false; if go then s.setReg d (.str x) else s
